@@ -51,38 +51,38 @@ func Spec(id, tier string) *core.CheckSpec {
 		}
 	case "C08", "C12", "C14", "C15", "C05", "C04":
 		cs.Batches = []core.Batch{
-			{Engine: "chainsim", Label: "swarm", Seconds: sec(45, 600), Opt: core.Options{}},
-			{Engine: "chainsim", Label: "late-forks", Seconds: sec(25, 300), Opt: core.Options{Params: p("forks", "late")}},
+			{Engine: "chainsim", Label: "swarm", Seconds: sec(60, 600), Opt: core.Options{}},
+			{Engine: "chainsim", Label: "late-forks", Seconds: sec(30, 300), Opt: core.Options{Params: p("forks", "late")}},
 		}
 		if id == "C04" || id == "C05" {
 			// every exported SSZ type behind the stream seam (object store with faulty disk and wire)
-			cs.Batches[0].Seconds = sec(35, 500)
-			cs.Batches[1].Seconds = sec(15, 250)
-			cs.Batches = append(cs.Batches, core.Batch{Engine: "codecsim", Label: "object-store-all-types", Seconds: sec(25, 400), Opt: core.Options{}})
+			cs.Batches[0].Seconds = sec(40, 500)
+			cs.Batches[1].Seconds = sec(20, 250)
+			cs.Batches = append(cs.Batches, core.Batch{Engine: "codecsim", Label: "object-store-all-types", Seconds: sec(30, 400), Opt: core.Options{}})
 		}
 	case "C18":
 		cs.Level = "fault_enumeration"
 		cs.Batches = []core.Batch{
-			{Engine: "chainsim", Label: "enumerate-faults", Seconds: sec(60, 900), Opt: core.Options{Params: p("c18", "1")}},
+			{Engine: "chainsim", Label: "enumerate-faults", Seconds: sec(75, 900), Opt: core.Options{Params: p("c18", "1")}},
 		}
 	case "C01", "C02", "C03", "C07", "C13":
 		cs.Batches = []core.Batch{
-			{Engine: "chainsim", Label: "swarm", Seconds: sec(50, 700), Opt: core.Options{}},
+			{Engine: "chainsim", Label: "swarm", Seconds: sec(55, 700), Opt: core.Options{}},
 			{Engine: "chainsim", Label: "late-forks", Seconds: sec(30, 400), Opt: core.Options{Params: p("forks", "late")}},
 		}
 		if id == "C02" || id == "C01" {
-			cs.Batches[0].Seconds = sec(35, 500)
-			cs.Batches[1].Seconds = sec(20, 300)
+			cs.Batches[0].Seconds = sec(45, 500)
+			cs.Batches[1].Seconds = sec(25, 300)
 			cs.Batches = append(cs.Batches,
-				core.Batch{Engine: "chainsim", Label: "director-leak", Seconds: sec(20, 300), Opt: core.Options{Params: p("director", "leak")}},
-				core.Batch{Engine: "chainsim", Label: "director-churn", Seconds: sec(20, 300), Opt: core.Options{Params: p("director", "churn")}})
+				core.Batch{Engine: "chainsim", Label: "director-leak", Seconds: sec(25, 300), Opt: core.Options{Params: p("director", "leak")}},
+				core.Batch{Engine: "chainsim", Label: "director-churn", Seconds: sec(25, 300), Opt: core.Options{Params: p("director", "churn")}})
 		}
 		if id == "C03" {
 			// onboarding validators (eligibility < activation) are where the age and queue rules differ
-			cs.Batches[0].Seconds = sec(40, 600)
-			cs.Batches[1].Seconds = sec(20, 300)
+			cs.Batches[0].Seconds = sec(45, 600)
+			cs.Batches[1].Seconds = sec(25, 300)
 			cs.Batches = append(cs.Batches,
-				core.Batch{Engine: "chainsim", Label: "director-churn", Seconds: sec(20, 300), Opt: core.Options{Params: p("director", "churn")}})
+				core.Batch{Engine: "chainsim", Label: "director-churn", Seconds: sec(25, 300), Opt: core.Options{Params: p("director", "churn")}})
 		}
 		if !q && id != "C13" {
 			cs.Batches = append(cs.Batches, core.Batch{Engine: "chainsim", Label: "mainnet-preset", Seconds: 240, Opt: core.Options{Params: p("preset", "mainnet")}})
